@@ -183,7 +183,7 @@ def monitor(r):
         # last id it saw after restarts / superseded streams) = the whole stream: every message exactly once, same order
         if rd.get("live_reader"):
             checks += 1
-            lr = [tuple(x) for x in rd["live_read"]]
+            lr = [tuple(x) for x in (rd.get("live_read") or [])]
             if lr != stream:
                 lc = {}
                 for x in lr:
@@ -328,7 +328,7 @@ def run(ck, replay):
             dist["incremental_fetches"] += c["fetches"]
             dist["live_readers"] += int(bool(c.get("live_reader")))
             dist["live_reader_connects"] += c.get("live_connects", 0)
-            dist["live_reader_messages"] += len(c.get("live_read", []))
+            dist["live_reader_messages"] += len(c.get("live_read") or [])
             for p in c["posts"]:
                 dist["posts"] += 1
                 dist["acked_posts"] += int(p["acked"])
